@@ -57,7 +57,7 @@ pub fn make_conc_case(real_prop: &str, seed: u64, tier: Tier) -> Case {
     // C19 (waiting protocol) rides on every scenario family: readers, cross-thread cycles,
     // writer cancellation, token cancellation, panics with waiters
     let prop: &str = if real_prop == "C19" {
-        *r.pick(&["C16", "C18", "C18", "C20", "C21", "C22", "C21+C22", "C21+C22"])
+        *r.pick(&["C16", "C18", "C18", "C20", "C21", "C22", "C21+C22", "C21+C22", "C14", "C14", "C14"])
     } else if real_prop == "C23" {
         // memory safety under schedules: rides on the concurrent families that free or recycle
         // memory while other threads run (writes + cancellation, LRU, interned reclamation,
@@ -514,7 +514,9 @@ pub fn make_case_e1(prop: &str, seed: u64, tier: Tier) -> Case {
             h.w_query = 55;
             h.w_set = 35;
             h.motif_pct = 35;
-            class = "structs".into();
+            // colliding identity hashes: different identities meet in one slot
+            knobs.hash_mod = if r.pct(40) { 1 } else { 0 };
+            class = if knobs.hash_mod == 1 { "structs+colliding_hashes".into() } else { "structs".into() };
         }
         "C05" => {
             g.kinds = vec![(Kind::Plain, 6), (Kind::Lru, 10), (Kind::NoEq, 1)];
